@@ -258,8 +258,18 @@ def parseIP (h : Bytes) : Option (Bool × Bytes) :=
   | some 58 => (parseV6 h).map (fun ip => (true, ip))
   | _ => none
 
-def lastIndexOf (c : UInt8) (b : Bytes) : Option Nat :=
-  (b.zipIdx.filter (fun p => p.1 == c)).getLast?.map (·.2)
+/-- bytes.LastIndexByte -/
+def lastIndexOf (c : UInt8) : Bytes → Option Nat
+  | [] => none
+  | x :: xs =>
+    match lastIndexOf c xs with
+    | some i => some (i + 1)
+    | none => if x = c then some 0 else none
+
+/-- bytes.IndexByte -/
+def indexOfB (c : UInt8) : Bytes → Option Nat
+  | [] => none
+  | x :: xs => if x = c then some 0 else (indexOfB c xs).map (· + 1)
 
 /-- net.SplitHostPort -/
 def splitHostPort (s : Bytes) : Option (Bytes × Bytes) :=
@@ -268,7 +278,7 @@ def splitHostPort (s : Bytes) : Option (Bytes × Bytes) :=
   | some i =>
     let port := s.drop (i + 1)
     if s.head? = some 91 then
-      match s.findIdx? (· == 93) with
+      match indexOfB 93 s with
       | none => none
       | some e =>
         if e + 1 = i then
@@ -496,7 +506,7 @@ def clientConnectH (target : Addr) (authHeader : Bytes) : M Unit := do
 def httpCarriable : Addr → Bool
   | .dom n _ => n.all (fun c => isTargetCh c && c != COLON && c != 91 && c != 93) && (parseIP n).isNone
   | .v4 _ _ => true
-  | .v6 ip _ => parseV6 (fmtV6 ip) == some ip
+  | .v6 ip _ => parseIP (fmtV6 ip) == some (true, ip) && (fmtV6 ip).all (fun c => c != 91 && c != 93)
   | .zero => false
 
 end SSV.HS
